@@ -154,6 +154,8 @@ class CQuoter:
         if ch2:
             self._ch2()
         self._skip()
+        self._utf8_bytes()
+        self._advance()
         from .unquoters import read_bounds
         for q in (f"{MOD}._Quoter._do_quote", f"{MOD}._Quoter._do_quote_or_skip"):
             read_bounds(self.ctx, self.model, self.model.func(q), self.res[q])
@@ -217,16 +219,33 @@ class CQuoter:
         # CH1 for re-emitted escapes: changed flag must be set when a digit is lower-case (output differs from input)
         rule2 = "CH1"
         ctx.rule(rule2, floor=2, what="a write with changed=False is the identity copy of the current input unit")
+        tested = {}
         for site in self.sites:
             e = site["event"]
             if site["cls"] == "REEMIT":
                 ch = e.args[2]
-                ctx.instance(rule2)
-                ok = ch == ("const", True) or (callee_name(ch) == "_is_lower_hex") or \
-                    any(callee_name(k) == "_is_lower_hex" for k in e.state.facts)
-                ctx.ob(rule2, site["func"], show(e.value), ok,
-                       "escape re-emitted with a `changed` flag that does not depend on the case of its digits",
-                       where(fi, e.node), sample="changed = lower-case digit seen")
+                if ch == ("const", True):
+                    tested.setdefault(id(e.node), [e, None])
+                    continue
+                digits = set(e.args[1][2]) if callee_name(e.args[1]) == "_restore_ch" else set()
+                seen_d = {k[2][0] for k in list(e.state.facts) + [ch] if callee_name(k) == "_is_lower_hex" and k[2]}
+                # the index terms are compared after linearisation (idx - 2 after idx += 2 is the first digit)
+                from .unquoters import lin
+                norm = lambda t: (callee_name(t), lin(t[2][2])) if callee_name(t) == "PyUnicode_READ" else t
+                ent = tested.setdefault(id(e.node), [e, set()])
+                if ent[1] is not None:
+                    ent[1] |= {norm(d) for d in seen_d} & {norm(d) for d in digits}
+                    ent.append({norm(d) for d in digits})
+        for e, seen_d, *digit_sets in tested.values():
+            ctx.instance(rule2)
+            if seen_d is None:
+                ctx.ob(rule2, f"{MOD}._Quoter._do_quote", show(e.value), True, where=where(fi, e.node), sample="changed=True")
+                continue
+            want = digit_sets[0] if digit_sets else set()
+            ctx.ob(rule2, f"{MOD}._Quoter._do_quote", show(e.value)[:100], bool(want) and seen_d >= want,
+                   "an escape is re-emitted upper-case but the `changed` flag does not depend on the case of BOTH of its hex "
+                   "digits: an escape whose untested digit is lower-case leaves the flag clear and the input is returned unchanged",
+                   where(fi, e.node), sample="changed = lower(d1) or lower(d2)")
         # result: ASCII-decoded buffer, or the input when nothing changed
         rule3 = "EM-CQ-RETURN"
         ctx.rule(rule3, floor=2)
@@ -372,6 +391,67 @@ class CQuoter:
                        "the helper reports success for an input unit without writing anything or flagging a change: "
                        "the unit is dropped and the quoter may return its input unchanged", where(fi, node),
                        sample="write on the path")
+
+    def _utf8_bytes(self):
+        """The byte expressions of _write_utf8 are the UTF-8 encoding: for every feasible interval of the code point the
+        number of %XX writes is the UTF-8 length and the folded byte expressions agree with the codec at both ends and
+        in the middle of the interval (the expressions are bit-field extractions, monotone in between)."""
+        ctx = self.ctx
+        rule = "EM-UTF8"
+        q = f"{MOD}._write_utf8"
+        fi, r = self.model.func(q), self.res[q]
+        ctx.rule(rule, floor=3, what="bytes written for a code point are its UTF-8 encoding")
+        sym = ("param", fi.params[1])
+        seen = set()
+        for s, v, node in r.returns:
+            if v == ("const", -1):
+                continue
+            lo, hi = interval(s.facts, sym, 0, 0x10FFFF)
+            if lo > hi or (lo, hi) in seen:
+                continue
+            seen.add((lo, hi))
+            writes = [t for t in s.trace if t[0] == "call" and callee_name(t) == "_write_pct"]
+            if not writes:
+                continue        # the drop branch: CH2 / DROP
+            ctx.instance(rule)
+            problems = []
+            for c in sorted({lo, hi, (lo + hi) // 2}):
+                try:
+                    want = list(chr(c).encode("utf-8"))
+                except UnicodeEncodeError:
+                    continue
+                f = Folder(self.model, {sym: c})
+                try:
+                    got = [f.fold(w[2][1]) & 0xFF for w in writes]
+                except CannotFold as e:
+                    raise AnalysisError(f"{q}: byte expression cannot be folded: {e}")
+                if got != want:
+                    problems.append(f"U+{c:04X}: writes {[hex(b) for b in got]}, UTF-8 is {[hex(b) for b in want]}")
+            ctx.ob(rule, q, f"code points U+{lo:04X}..U+{hi:04X}", not problems, "; ".join(problems), where(fi, node),
+                   sample=f"{len(writes)} byte(s), codec agrees at both ends and the middle")
+
+    def _advance(self):
+        """Scanner position accounting of the compiled quoter: +1 per unit, +3 when a valid escape was consumed."""
+        from .unquoters import lin
+        ctx = self.ctx
+        rule = "EM-CQ-ADVANCE"
+        q = f"{MOD}._Quoter._do_quote"
+        fi, r = self.model.func(q), self.res[q]
+        ctx.rule(rule, floor=2, what="scanner position accounting: +1 per unit, +3 for a consumed escape")
+        groups = {}
+        for lid, states in r.backedges.items():
+            for s in states:
+                idxs = [n for n, t in s.env.items() if t[0] != "phi" and lin(t)[0] == ("phi", lid, n)]
+                for n in idxs:
+                    base, off = lin(s.env[n])
+                    consumed = any((not v) and k[0] == "cmp" and k[1] == "Eq" and callee_name(k[2]) == "_restore_ch" and k[3] == ("const", -1)
+                                   for k, v in s.facts.items())
+                    want = 3 if consumed else 1
+                    groups.setdefault("escape consumed" if consumed else "single unit", []).append(off == want)
+        for why, oks in groups.items():
+            ctx.instance(rule)
+            ctx.ob(rule, q, why, all(oks), "the scan index does not advance by the number of units consumed", where(fi, fi.node),
+                   sample=f"{len(oks)} iteration path(s)")
 
     def _skip(self):
         """Fast path: the input object is returned unscanned only when every unit is < 128 and in the safe table."""
